@@ -506,6 +506,7 @@ def _c20_parts():
             ("C13", "framing", {"MAXK": 2, "COARSEK": 2, "FULLSEG": 0, "SHARDDEPTH": 4}, {"MAXK": 2, "COARSEK": 3, "FULLSEG": 0, "SHARDDEPTH": 4}),
             ("C19", "prefetch", {"DEPTH": 4, "FAULTS": 2}, {"DEPTH": 6, "FAULTS": 3}),
             ("C03", "router", {}, {}),
+            ("C15", "seams", {}, {}),
             ("C04", "mixups", {"DEPTH": 4, "SHARDDEPTH": 4}, {"DEPTH": 6, "SHARDDEPTH": 4})]
     for pid, pname, q, t in plan:
         for p in SPECS[pid]["parts"]:
@@ -513,6 +514,10 @@ def _c20_parts():
                 d = copy.deepcopy(p)
                 d["name"] = pid.lower() + "-" + pname
                 d["race_only"] = True
+                if pname == "seams":
+                    # the admission paths release buffers on their own refusal branches: the plain build (full ownership bookkeeping:
+                    # double / foreign release) runs as well as the race build
+                    d["race_only"], d["race"] = False, True
                 d["env"] = dict(d.get("env", {}), VERIF_ONLY_OWNERSHIP="1")
                 d["params"] = {"quick": dict(d.get("params", {}).get("quick", {}), **q), "thorough": dict(d.get("params", {}).get("thorough", {}), **t)}
                 d["budget"] = {"quick": 100, "thorough": 900}
